@@ -44,7 +44,7 @@ Inductive gcop :=
 Inductive gcobs := YLs (q : cobs) | YDone | YDel (ok : bool).
 
 Inductive gsteps := GSE | GSC (o : gcop) (q : gcobs) (d : gdump) (c : cidump) (t : gsteps).
-Inductive ccat := CE | CC (root : N) (leaves edges : nl) (t : ccat).
+Inductive ccat := CE | CC (root : N) (leaves edges probe : nl) (t : ccat).
 Inductive case := CSys (base : nl) (cap : N) (univ : univs) (cat : ccat) (st : gsteps).
 
 Section Tr.
@@ -54,7 +54,7 @@ Section Tr.
   Fixpoint tr_cat (c : ccat) : catalogue :=
     match c with
     | CE => []
-    | CC r l e t => ainsert cmp_bytes (A r) {| f_leaves := map A (nl_list l); f_edges := map A (nl_list e) |} (tr_cat t)
+    | CC r l e p t => ainsert cmp_bytes (A r) {| f_leaves := map A (nl_list l); f_edges := map A (nl_list e); f_probe := map A (nl_list p) |} (tr_cat t)
     end.
 
   Definition tr_gop (o : gcop) : gop :=
